@@ -28,7 +28,7 @@ REQUIRED_COUNTERS = {'quick': ['patterns_checked', 'bindings_checked'], 'thoroug
 
 def find(pattern, src):
     from pedal.cait.cait_api import find_matches
-    return find_matches(pattern)
+    return find_matches(pattern, **cc.kw())
 
 
 def binding_ok(match, d):
@@ -121,13 +121,13 @@ def check_pair(ctx, src, tree, d, origin):
         from pedal.cait.cait_api import find_matches as fm, find_asts
         try:
             if ctx.evaluations % 8 == 1:
-                fm('print(___)', 'other = 1\nprint(other)\n')
+                fm('print(___)', 'other = 1\nprint(other)\n', **cc.kw())
                 kind = 'valid'
             else:
-                find_asts('For', student_code='for = = 1\n')
+                find_asts('For', student_code='for = = 1\n', **cc.kw())
                 kind = 'unparsable'
             ctx.count('queries_about_other_code_in_between')
-            again = fm(pattern)
+            again = fm(pattern, **cc.kw())
         except Exception as e:
             ctx.violation('C11|find_matches-raised-after-a-query-about-other-code|%s' % type(e).__name__, case, traceback.format_exc()[-300:])
             return False
@@ -198,7 +198,7 @@ def ask_statement_nodes(ctx, rng, src, tree):
     graders do through match['__body__'].find_matches(...): each finds itself, and what is asked afterwards is unaffected"""
     from pedal.cait.cait_api import parse_program
     try:
-        root = parse_program()
+        root = parse_program(**cc.kw())
     except Exception:
         return 0
     asked = 0
